@@ -664,6 +664,14 @@ impl<F: Fam> Ctx<F> {
             }
             _ => {
                 let mut guard = 0;
+                let lcap = match self.meta[s + 2].vh.mode {
+                    HMode::Collide => 400,
+                    HMode::Low => 1500,
+                    _ => usize::MAX,
+                };
+                if self.sets[s].model.len() >= lcap {
+                    return Ok(());
+                }
                 loop {
                     let st = self.st(s + 2);
                     if st.len >= st.cap || guard > 40_000 {
